@@ -42,6 +42,8 @@ def plan(tier, seed):
     specs.append({"kind": "native_hammer", "flavour": "plain", "threads": 8, "rounds": 60 if q else 600})
     specs.append({"kind": "native_hammer", "flavour": "plain", "threads": 4, "rounds": 100 if q else 1000, "env": {"PYCRYPTODOME_DISABLE_GMP": "1"}})
     specs.append({"kind": "native_hammer", "flavour": "tsan", "threads": 8, "rounds": 4 if q else 40, "timeout_s": 1500})
+    specs.append({"kind": "python_hammer", "flavour": "plain", "threads": 8, "rounds": 40 if q else 400})
+    specs.append({"kind": "python_hammer", "flavour": "plain", "threads": 4, "rounds": 60 if q else 600})
     for i in range(2 if q else 4):
         specs.append({"kind": "interleave", "idx": i, "budget_s": 25 if q else 200})
     specs.append({"kind": "interleave", "idx": 99, "flavour": "asan", "budget_s": 25 if q else 150, "timeout_s": 1200})
@@ -58,7 +60,7 @@ def finalize(agg, tier):
     out = []
     for n in ("thread_runs:tsan", "thread_runs:plain", "thread_transcripts_compared", "hammer_digests", "interleaved_programs",
               "copies_checked", "destroyed_neighbours", "snapshots_compared", "signer_hash_state_checked", "first_use_trials",
-              "first_use_yields_injected", "native_hammer_calls", "native_hammer_runs:plain", "native_hammer_runs:tsan"):
+              "first_use_yields_injected", "native_hammer_calls", "native_hammer_runs:plain", "native_hammer_runs:tsan", "python_hammer_calls"):
         if not c.get(n):
             out.append("deciding counter %s is zero" % n)
     for cv in CURVES:
@@ -526,6 +528,189 @@ def w_native_hammer(spec, ctx):
                       "a result computed while other threads were using other objects differs from the same computation run alone",
                       {"family": fam, "threads": nt, "flavour": flavour, "mismatches": len(lst), "examples": lst[:3]})
     ctx.sample({"native_hammer": fams, "threads": nt, "calls": n, "flavour": flavour})
+
+
+def _python_ops(t, rng, S):
+    """[(family, callable -> None | str)]: self-checking operations of the PYTHON layers (round trips, bounds) on objects
+    private to thread t; a returned string describes what went wrong.  Parameters differ between threads on purpose
+    (bit widths, curves, AEADs, integer sizes), so state shared between threads by mistake shows as a wrong result."""
+    from Crypto.Protocol import HPKE
+    from Crypto.Protocol.SecretSharing import Shamir
+    from Crypto.PublicKey import ECC, RSA
+    from Crypto.Util import asn1, Padding, Counter
+    from Crypto.IO import PEM, PKCS8
+    from Crypto.Random import random as crandom
+    from Crypto.Math.Numbers import Integer
+    from Crypto.Cipher import AES
+    ops = []
+    curve = ["p256", "curve25519", "p384", "curve448", "p521"][t % 5]
+    aead = [HPKE.AEAD.AES128_GCM, HPKE.AEAD.CHACHA20_POLY1305, HPKE.AEAD.AES256_GCM][t % 3]
+    rk = ECC.generate(curve=curve)
+    st = {}
+
+    def hpke():
+        if "s" not in st or st["n"] > 40:
+            st["s"] = HPKE.new(receiver_key=rk.public_key(), aead_id=aead, info=b"t%d" % t)
+            st["r"] = HPKE.new(receiver_key=rk, aead_id=aead, enc=st["s"].enc, info=b"t%d" % t)
+            st["n"] = 0
+        st["n"] += 1
+        pt = b"message %d of thread %d" % (st["n"], t)
+        ct = st["s"].seal(pt, b"aad")
+        try:
+            back = st["r"].unseal(ct, b"aad")
+        except ValueError as e:
+            st.pop("s")
+            return "HPKE receiver refused the sender's message %d: %r" % (st["n"], e)
+        if back != pt:
+            st.pop("s")
+            return "HPKE unseal returned %r for %r" % (back[:40], pt)
+    ops.append(("hpke", hpke))
+    ints = [rng.getrandbits(rng.choice([7, 8, 63, 64, 65, 521, 1024])) * rng.choice([1, 1, -1]) for _ in range(6)]
+
+    def der():
+        enc = asn1.DerSequence(ints).encode()
+        dec = asn1.DerSequence().decode(enc, strict=True)
+        if [int(x) for x in dec] != ints:
+            return "DerSequence round trip returned %r for %r" % ([hex(int(x)) for x in dec][:3], [hex(x) for x in ints][:3])
+        o = asn1.DerOctetString().decode(asn1.DerOctetString(enc).encode()).payload
+        if o != enc:
+            return "DerOctetString round trip differs"
+        oid = "1.2.840.%d.1.%d" % (10000 + t, len(enc))
+        if asn1.DerObjectId().decode(asn1.DerObjectId(oid).encode()).value != oid:
+            return "DerObjectId round trip differs"
+    ops.append(("der", der))
+    blob = rng.randbytes(40 + t)
+
+    def containers():
+        inner = asn1.DerOctetString(blob).encode()
+        w = PKCS8.wrap(inner, "1.3.101.%d" % (110 + t % 4), key_params=None)
+        oid, key, params = PKCS8.unwrap(w)
+        if key != inner or oid != "1.3.101.%d" % (110 + t % 4) or params is not None:
+            return "PKCS8 round trip differs"
+        pem = PEM.encode(blob, "THREAD %d" % t)
+        d, marker, enc_ = PEM.decode(pem)
+        if d != blob or marker != "THREAD %d" % t or enc_:
+            return "PEM round trip differs"
+        for style in ("pkcs7", "x923", "iso7816"):
+            if Padding.unpad(Padding.pad(blob, 16, style), 16, style) != blob:
+                return "padding round trip differs (%s)" % style
+    ops.append(("containers", containers))
+    own = ECC.generate(curve=["P-256", "Ed25519", "P-384", "Ed448"][t % 4])
+
+    def keyio():
+        for fmt in ("DER", "PEM"):
+            k2 = ECC.import_key(own.export_key(format=fmt))
+            if k2 != own:
+                return "ECC export/import (%s) returned a different key" % fmt
+        p2 = ECC.import_key(own.public_key().export_key(format="DER"))
+        if p2 != own.public_key():
+            return "ECC public export/import returned a different key"
+        r2 = RSA.import_key(S.rsa.export_key("DER"))
+        if r2 != S.rsa:
+            return "RSA export/import returned a different key"
+    ops.append(("keyio", keyio))
+    width = [3, 16, 64, 200, 1, 9, 33, 521][t % 8]
+    bound = [5, 1000, 2 ** 64 + 13, 7, 2 ** 200 - 1, 3, 65537, 10 ** 30][t % 8]
+
+    def rnd():
+        for _ in range(8):
+            v = crandom.getrandbits(width)
+            if not 0 <= v < (1 << width):
+                return "getrandbits(%d) returned %d" % (width, v)
+            v = crandom.randrange(bound)
+            if not 0 <= v < bound:
+                return "randrange(%d) returned %d" % (bound, v)
+            v = crandom.randint(10, 10 + bound)
+            if not 10 <= v <= 10 + bound:
+                return "randint(10, %d) returned %d" % (10 + bound, v)
+            v = int(Integer.random(exact_bits=width + 1))
+            if v.bit_length() != width + 1:
+                return "Integer.random(exact_bits=%d) returned %d bits" % (width + 1, v.bit_length())
+            v = int(Integer.random_range(min_inclusive=bound, max_inclusive=2 * bound))
+            if not bound <= v <= 2 * bound:
+                return "Integer.random_range(%d, %d) returned %d" % (bound, 2 * bound, v)
+        seq = list(range(5 + t))
+        crandom.shuffle(seq)
+        if sorted(seq) != list(range(5 + t)):
+            return "shuffle returned %r" % (seq,)
+        smp = crandom.sample(range(100 + t), 4)
+        if len(set(smp)) != 4 or not all(0 <= x < 100 + t for x in smp):
+            return "sample returned %r" % (smp,)
+    ops.append(("random-bounds", rnd))
+    secret = rng.randbytes(16)
+
+    def shamir():
+        k, n = 2 + t % 3, 5
+        shares = Shamir.split(k, n, secret, ssss=bool(t % 2))
+        pick = rng.sample(shares, k)
+        if Shamir.combine(pick, ssss=bool(t % 2)) != secret:
+            return "Shamir.combine did not return the secret"
+    ops.append(("shamir", shamir))
+    key, msg = rng.randbytes(16), rng.randbytes(100 + t)
+
+    def ctr():
+        c = Counter.new(64 + 8 * (t % 4), prefix=bytes(8 - (t % 4)), initial_value=t)
+        ct = AES.new(key, AES.MODE_CTR, counter=c).encrypt(msg)
+        if AES.new(key, AES.MODE_CTR, counter=c).decrypt(ct) != msg:
+            return "CTR with a Counter dictionary does not round-trip"
+    ops.append(("counter", ctr))
+    return ops
+
+
+def w_python_hammer(spec, ctx):
+    """Self-checking operations of the Python layers from many threads at once (switch interval 1 us)."""
+    import random as _r
+    sys.setswitchinterval(1e-6)
+    S = Shared()
+    nt, rounds = spec["threads"], spec["rounds"]
+    plans = {t: _python_ops(t, _r.Random("python-hammer/%s/%d" % (ctx.seed, t)), S) for t in range(nt)}
+    # every operation must succeed ALONE first (otherwise the monitor, not the library, is at fault)
+    for t, ops in plans.items():
+        for fam, f in ops:
+            r = f()
+            if r is not None:
+                ctx.inconclusive_reason("python_hammer operation %s failed when run alone: %s" % (fam, r))
+                return
+    bad, lock, total, errors = [], threading.Lock(), [0] * nt, []
+    barrier = threading.Barrier(nt)
+
+    def body(t):
+        ops = plans[t]
+        try:
+            barrier.wait()
+            for _ in range(rounds):
+                for fam, f in ops:
+                    r = f()
+                    total[t] += 1
+                    if r is not None:
+                        with lock:
+                            if len(bad) < 200:
+                                bad.append((fam, t, r))
+        except BaseException:      # noqa
+            import traceback
+            errors.append(traceback.format_exc()[-1500:])
+    ths = [threading.Thread(target=body, args=(t,)) for t in range(nt)]
+    for th in ths:
+        th.start()
+    for th in ths:
+        th.join()
+    n = sum(total)
+    ctx.count("python_hammer_calls", n)
+    ctx.ev(n)
+    for fam, _ in plans[0]:
+        ctx.case(("python-hammer", fam, nt))
+    for tb in errors[:3]:
+        ctx.violation("threads:exception-in-thread", "a thread working on its own objects raised while others ran concurrently",
+                      {"threads": nt, "traceback": tb})
+    by = {}
+    for fam, t, r in bad:
+        by.setdefault(fam, []).append({"thread": t, "what": r})
+    for fam, lst in by.items():
+        ctx.violation("threads:self-check-failed-under-concurrency:" + fam,
+                      "an operation on thread-private objects that is correct when run alone gave a wrong result while other threads "
+                      "were running their own operations",
+                      {"family": fam, "threads": nt, "failures": len(lst), "examples": lst[:3]})
+    ctx.sample({"python_hammer": [f for f, _ in plans[0]], "threads": nt, "calls": n})
 
 
 # ---------------------------------------------------------------------------
